@@ -1420,11 +1420,12 @@ from gen_cacheh import g_cacheh
 from gen_glue import g_glue
 from gen_cliargs import g_cliargs
 from gen_ltsutil import g_ltsutil
+from gen_nfas import g_nfas
 
 
 GENERATORS = {
     "apisweep": g_apisweep,
-    "ordvec": g_ordvec, "achain": g_achain, "bddsim": g_bddsim, "binrel": g_binrel, "cacheh": g_cacheh, "glue": g_glue, "cliargs": g_cliargs, "ltsutil": g_ltsutil,
+    "ordvec": g_ordvec, "achain": g_achain, "bddsim": g_bddsim, "binrel": g_binrel, "cacheh": g_cacheh, "glue": g_glue, "cliargs": g_cliargs, "ltsutil": g_ltsutil, "nfas": g_nfas,
     **{k: mk_cliop(v) for k, v in CLIOPS.items()},
     "meta": g_meta, "metaf": g_metaf,
     "parse": g_parse,
